@@ -1132,12 +1132,15 @@ class HttpPayloadParser:
 
                 # toss the CRLF at the end of the chunk
                 if self._chunk == ChunkState.PARSE_CHUNKED_CHUNK_EOF:
-                    if self._lax and chunk.startswith(b"\r"):
-                        chunk = chunk[1:]
-                    if chunk[: len(SEP)] == SEP:
-                        chunk = chunk[len(SEP) :]
+                    # Lax mode tolerates one CR in front of the line ending. It
+                    # is skipped by offset, not dropped: if more input is needed
+                    # the tail has to keep it, or it would be skipped twice.
+                    skip = 1 if self._lax and chunk.startswith(b"\r") else 0
+                    ending = chunk[skip : skip + len(SEP)]
+                    if ending == SEP:
+                        chunk = chunk[skip + len(SEP) :]
                         self._chunk = ChunkState.PARSE_CHUNKED_SIZE
-                    elif len(chunk) >= len(SEP) or chunk != SEP[: len(chunk)]:
+                    elif len(ending) >= len(SEP) or ending != SEP[: len(ending)]:
                         exc = TransferEncodingError(
                             "Chunk size mismatch: expected CRLF after chunk data"
                         )
